@@ -869,9 +869,10 @@ class Step(Node):
         `duration`, when `None`, deliberately leaves the recycled step's existing duration
         (its previous measurement, if any) untouched, unlike a brand-new step's default.
 
-        `_holding` is always reset to 0: a recycled step cannot still be inside a `hold()`
-        block from a previous run, since that block would have released it (or failed)
-        before the step could be recycled.
+        `_holding` is left alone: it is zero unless the step is RUNNING
+        (the `step_reset_holding` trigger clears it whenever a step leaves that state),
+        and a step that is recycled while it is still running inside a `hold()` block
+        must keep holding back the steps it creates until it calls `release()`.
 
         A FAILED step is the one state that is not carried over: it is made PENDING so the
         recycled step is retried. A failed step is never skippable anyway (it has no stored
@@ -887,7 +888,7 @@ class Step(Node):
             or dict(env_overrides or {}) != self.get_env_overrides()
         )
         self.db.execute(
-            "UPDATE step SET need = ?, shell = ?, _holding = 0 WHERE node = ?",
+            "UPDATE step SET need = ?, shell = ? WHERE node = ?",
             (need.value, int(shell), self.i),
         )
         if changed or self.get_state() == StepState.FAILED:
